@@ -404,3 +404,4 @@ fn fft_error_immut_ill() {
     fft_error_immut(el, ai, ao, es, as_);
     kani::cover!(true, "ILL-SHAPED CALL RETURNED NORMALLY");
 }
+
